@@ -634,6 +634,7 @@ def c10(tier, hook=None):
     # last field = a wrapper with several type arguments, the last of which may be unsized
     if not hook:
         wmods = [(900000 + k, rf.debug_wrapped_tail_module(900000 + k, entry)) for k, entry in enumerate(("attr", "derive"))]
+        wmods += [(900010 + k, rf.debug_ignored_before_tail_module(900010 + k, entry)) for k, entry in enumerate(("attr", "derive"))]
         wres, wfailed = run_modules(wmods, "c10w")
         for wi, wsrc in wmods:
             events.append({"ev": "same_as_twin", "equal": wres[wi][0]["equal"]} if wi in wres else {"ev": "rustc_failed"})
